@@ -33,7 +33,6 @@ template <class T, glm::qualifier Q> static void reg_quat() {
 	add_op(name("from_euler"), spec("@A3", tl), o4, 'U', 'U', 16, FN { STQ(out, Qt(VL<3, T, Q>::ld(in))); }, SC { return 1.0L; });
 	add_op(name("ctor_s_v"), spec("@F1 @F3", tl), o4, 'B', 'B', 0, FN { STQ(out, Qt(SA<T>::get(in[0]), VL<3, T, Q>::ld(in + 1))); });
 	add_op(name("wxyz"), q1, o4, 'B', 'B', 0, FN { STQ(out, Qt::wxyz(SA<T>::get(in[0]), SA<T>::get(in[1]), SA<T>::get(in[2]), SA<T>::get(in[3]))); });
-	add_op(name("index"), q1, o4, 'B', 'B', 0, FN { Qt q = LDQ<T, Q>(in); for (int i = 0; i < 4; ++i) SA<T>::put(out[i], q[i]); Qt r = LDQ<T, Q>(in); (void)r; });
 }
 
 template <class T, glm::qualifier Q, int C, int R> static void reg_matctor() {
